@@ -12,6 +12,7 @@ import asyncio
 import asyncio.sslproto
 import os
 import shutil
+import ssl
 import tempfile
 import threading
 import time
@@ -102,6 +103,7 @@ class OrderMonitor:
         return ev
 
 
+CLIENT_MODES = ["tofu", "ca+tofu", "tofu", "clientcert+tofu"]
 SPELLINGS = ["127.0.0.1", "pinned.test", "127.0.0.1", "Pinned.Test", "127.0.0.1", "PINNED.TEST", "pinned.TEST"]
 
 
@@ -117,6 +119,15 @@ def run(ctx):
         "other": certs.identity("c11-other", "rsa"),
         "tampered": certs.identity("c11-tampered", "ec", tamper="bool"),
     }
+    # the same situations for a client that runs CA verification *next to* TOFU (verify_ssl=True with a context
+    # trusting a private CA): both the pinned and the changed certificate are CA-valid for the host name
+    the_ca = certs.ca()
+    idents_ca = {
+        "good": certs.identity("c11-ca-good", "ec", cn="pinned.test", issuer=the_ca, sans=("127.0.0.1", "localhost")),
+        "other": certs.identity("c11-ca-other", "rsa", cn="pinned.test", issuer=the_ca, sans=("127.0.0.1", "localhost")),
+        "tampered": idents["tampered"],
+    }
+    own = certs.identity("c11-client-identity", "ec")
     state = {"mode": "eager", "go": threading.Event(), "redirect_to": None}
 
     def behaviour(conn):
@@ -156,9 +167,13 @@ def run(ctx):
                             continue
                         dbp = os.path.join(tmp, f"db{k}.db")
                         db = TOFUDatabase(Path(dbp))
-                        good = x509.load_der_x509_certificate(idents["good"].der)
-                        peer.swap_cert(idents["good"])
-                        peer2.swap_cert(idents["good"])
+                        # client configuration: plain TOFU / CA verification + TOFU / TOFU with a client certificate
+                        cmode = CLIENT_MODES[(k // 2) % len(CLIENT_MODES)]
+                        ids = idents_ca if cmode == "ca+tofu" else idents
+                        ctx.count("client_mode", cmode)
+                        good = x509.load_der_x509_certificate(ids["good"].der)
+                        peer.swap_cert(ids["good"])
+                        peer2.swap_cert(ids["good"])
                         state.update(mode=mode, redirect_to=None)
                         state["go"].clear()
                         target_peer = peer
@@ -171,16 +186,16 @@ def run(ctx):
                             db.trust(pin_host, peer.port, good)
                         elif situation == "changed":
                             db.trust(pin_host, peer.port, good)
-                            peer.swap_cert(idents["other"])
+                            peer.swap_cert(ids["other"])
                         elif situation == "unparsable":
                             db.trust(pin_host, peer.port, good)
-                            peer.swap_cert(idents["tampered"])
+                            peer.swap_cert(ids["tampered"])
                         elif situation == "redirect-to-changed":
                             if op != "get":
                                 continue
                             db.trust(pin_host, peer.port, good)
                             db.trust(pin_host, peer2.port, good)
-                            peer2.swap_cert(idents["other"])
+                            peer2.swap_cert(ids["other"])
                             state["redirect_to"] = f"gemini://{spelled}:{peer2.port}/secret?session=TOPSECRET"
                             target_peer = peer2
                         n0 = len(target_peer.log)
@@ -194,10 +209,20 @@ def run(ctx):
                         attempts = 1 + (k % 2 if situation in ("changed", "unparsable", "redirect-to-changed") else 0)
                         client_box = {}
 
+                        def make_client():
+                            kw = {}
+                            if cmode == "ca+tofu":
+                                cctx = ssl.SSLContext(ssl.PROTOCOL_TLS_CLIENT)
+                                cctx.load_verify_locations(cafile=the_ca.certfile)
+                                kw.update(verify_ssl=True, ssl_context=cctx)
+                            elif cmode == "clientcert+tofu":
+                                kw.update(client_cert=own.certfile, client_key=own.keyfile)
+                            return GeminiClient(timeout=6, trust_on_first_use=True, tofu_db_path=Path(dbp), **kw)
+
                         async def go():
                             c = client_box.get("c")
                             if c is None:
-                                c = client_box["c"] = GeminiClient(timeout=6, trust_on_first_use=True, tofu_db_path=Path(dbp))
+                                c = client_box["c"] = make_client()
                             if op in ("get", "get-query"):
                                 return await c.get(url)
                             if op == "delete":
@@ -208,7 +233,7 @@ def run(ctx):
                             # first use inside `async with client:`; leaving the block must not weaken later calls
                             c = client_box.get("c")
                             if c is None:
-                                c = client_box["c"] = GeminiClient(timeout=6, trust_on_first_use=True, tofu_db_path=Path(dbp))
+                                c = client_box["c"] = make_client()
                             async with c:
                                 return await go()
 
@@ -234,7 +259,7 @@ def run(ctx):
                         must_fail = situation in ("changed", "unparsable", "redirect-to-changed")
                         pin_situation = situation
                         entry = "get" if op.startswith("get") else ("delete" if op == "delete" else "upload")
-                        wit = {"situation": situation, "operation": op, "content_size": size, "peer_mode": mode, "url": url, "result": res, "attempts_on_same_client": [list(r) for r in results],
+                        wit = {"client_mode": cmode, "situation": situation, "operation": op, "content_size": size, "peer_mode": mode, "url": url, "result": res, "attempts_on_same_client": [list(r) for r in results],
                                "client_events": [list(map(str, e)) for e in events[:12]], "peer_received_len": len(received), "peer_received_head": received[:120],
                                "peer_handshakes": [r.get("handshake_ok") for r in recs]}
                         # ---- client-side order monitor
@@ -278,7 +303,7 @@ def run(ctx):
                                 ctx.anomaly(f"control call failed: {res}")
                         sc = "0" if not size else ("small" if size <= 1000 else ("16K-100K" if size <= 100000 else ">=1MiB"))
                         ctx.count("monitor", "repeated_attempts_on_same_client", attempts - 1)
-                        ctx.case((situation, op, sc, mode, res[0], bool(received), attempts), True,
+                        ctx.case((situation, op, sc, mode, res[0], bool(received), attempts, cmode), True,
                                  sample={"situation": situation, "operation": op, "size": size, "peer": mode, "result": res, "peer_received": len(received), "events": [e[0] for e in events][:10]})
                         try:
                             os.unlink(dbp)
